@@ -174,16 +174,30 @@ def nbPersons (p : Pop) (role : Option Role) : Except String (List Int) :=
   | some r => groupSum p ((p.hasRole r).map b2i) none
   | none => .ok (bincount p.ids p.n)
 
+/-- body of `GroupPopulation.value_nth_person(n, array, default)`, the member positions `pos`
+(`members_position`, computed by the counter loop or explicitly assigned through the setter) and
+the members map being given -/
+def valueNthCore {α} (p : Pop) (pos mp : List Nat) (k : Nat) (a : List α) (d : α) :
+    Except String (List α) :=
+  if a.length ≠ p.ms.length then .error "InvalidArraySizeError" else
+  if pos.length < p.ms.length then .error "IndexError: index out of bounds" else
+  let nb := bincount p.ids p.n
+  maskedAssign (List.replicate p.n d) (nb.map fun c => decide ((k : Int) < c))
+    (maskSel ((takeD pos mp 0).map (· == k)) (takeD a mp d))
+
 /-- `GroupPopulation.value_nth_person(n, array, default)`, the members map being given -/
 def valueNthWith {α} (p : Pop) (mp : List Nat) (k : Nat) (a : List α) (d : α) :
     Except String (List α) :=
   if a.length ≠ p.ms.length then .error "InvalidArraySizeError" else
   match membersPosition p.ids with
   | .error e => .error e
-  | .ok pos =>
-    let nb := bincount p.ids p.n
-    maskedAssign (List.replicate p.n d) (nb.map fun c => decide ((k : Int) < c))
-      (maskSel ((takeD pos mp 0).map (· == k)) (takeD a mp d))
+  | .ok pos => valueNthCore p pos mp k a d
+
+/-- `value_nth_person` after `members_position` has been assigned (`population.members_position =
+…`, as `simulation_dumper.restore_entity` does) -/
+def valueNthAssigned {α} (p : Pop) (pos : List Nat) (k : Nat) (a : List α) (d : α) :
+    Except String (List α) :=
+  valueNthCore p pos (orderedMap p.ids) k a d
 
 /-- `GroupPopulation.value_nth_person(n, array, default)` -/
 def valueNth {α} (p : Pop) (k : Nat) (a : List α) (d : α) : Except String (List α) :=
@@ -252,6 +266,36 @@ def project {α} (p : Pop) (x : List α) (zero : α) (role : Option Role) : Exce
   | none => .ok (takeD x p.ids zero)
   | some r => .ok (whereL (p.hasRole r) (takeD x p.ids zero) zero)
 
+/-! ## Partner -/
+
+/-- `numpy.select([c1, c2], [x1, x2])` (default 0) over the persons -/
+def select2 {α} (ms : List Member) (c1 c2 : Member → Bool) (x1 x2 : List α) (zero : α) : List α :=
+  (ms.zip (x1.zip x2)).map fun mx =>
+    if c1 mx.1 then mx.2.1 else if c2 mx.1 then mx.2.2 else zero
+
+/-- `Population.value_from_partner(array, entity, role)` with `entity` the projector
+`person.<group entity>`: each holder of one of the two sub-roles of `role` receives the value of
+the holder of the other one in its group -/
+def valueFromPartner {α} (p : Pop) (a : List α) (role : Role) (zero : α) : Except String (List α) :=
+  if a.length ≠ p.ms.length then .error "InvalidArraySizeError" else
+  match role.subs with
+  | [s1, s2] =>
+    let r1 : Role := ⟨s1, [], some 1⟩
+    let r2 : Role := ⟨s2, [], some 1⟩
+    match valueFromPerson p a r1 zero with
+    | .error e => .error e
+    | .ok g1 =>
+      match project p g1 zero none with
+      | .error e => .error e
+      | .ok v1 =>
+        match valueFromPerson p a r2 zero with
+        | .error e => .error e
+        | .ok g2 =>
+          match project p g2 zero none with
+          | .error e => .error e
+          | .ok v2 => .ok (select2 p.ms r1.holds r2.holds v2 v1 zero)
+  | _ => .error "Projection to partner is only implemented for roles having exactly two subroles."
+
 /-! ## Ranks -/
 
 /-- the list comprehension `[value_nth_person(k, filtered, default=inf) for k in range(m)]` -/
@@ -292,61 +336,80 @@ def getRank (p : Pop) (crit : List Int) (cond : List Bool) : Except String (List
 
 /-! ## Projectors -/
 
-inductive Level | person | group
+/-- the group populations of a simulation (all over the same persons), and for each group entity
+the indices of the entities it declares in `containing_entities` -/
+structure World where
+  pops : List Pop
+  containing : Nat → List Nat
+
+def World.pop (w : World) (e : Nat) : Pop := w.pops.getD e ⟨0, []⟩
+
+/-- a simulation with one group entity -/
+def World.single (p : Pop) : World := ⟨[p], fun _ => []⟩
+
+inductive Level | person | group (e : Nat)
 deriving DecidableEq, Repr
 
-/-- the attribute used on a population / projector: the key of the group entity, `first_person`,
-the key of a role, or anything else -/
-inductive Shortcut | entity | firstPerson | role (r : Role) | other
+/-- the attribute used on a population / projector: the key of group entity `e`, `first_person`,
+the key of a role (of the entity at hand), or anything else -/
+inductive Shortcut | entity (e : Nat) | firstPerson | role (r : Role) | other
 deriving Repr
 
-inductive Proj | toPerson | firstPerson | uniqueRole (r : Role)
+inductive Proj | toPerson (e : Nat) | firstPerson (e : Nat) | uniqueRole (e : Nat) (r : Role)
 deriving Repr
 
-/-- `projectors.get_projector_from_shortcut`: the projector and the level of its reference
-entity (`None` ⇒ `AttributeError`). `find_role(..., total=1)` only finds roles with `max == 1`. -/
-def resolve : Level → Shortcut → Option (Proj × Level)
-  | .person, .entity => some (.toPerson, .group)
-  | .group, .firstPerson => some (.firstPerson, .person)
-  | .group, .role r => if r.max = some 1 then some (.uniqueRole r, .person) else none
+/-- `projectors.get_projector_from_shortcut`: the projector(s) the attribute resolves to and the
+level of the reference entity (`None` ⇒ `AttributeError`).  `find_role(..., total=1)` only finds
+roles with `max == 1`.  The key of an entity listed in `containing_entities` resolves to
+`first_person.<that entity>`: two projectors. -/
+def resolve (w : World) : Level → Shortcut → Option (List Proj × Level)
+  | .person, .entity e => if e < w.pops.length then some ([.toPerson e], .group e) else none
+  | .group e, .firstPerson => some ([.firstPerson e], .person)
+  | .group e, .role r => if r.max = some 1 then some ([.uniqueRole e r], .person) else none
+  | .group e, .entity e' =>
+    if (w.containing e).contains e' && decide (e' < w.pops.length) then
+      some ([.firstPerson e, .toPerson e'], .group e')
+    else none
   | _, _ => none
 
 /-- attribute chain `population.s1.s2…`: projectors, outermost first, and the level on which the
 final method is called -/
-def resolveChain : Level → List Shortcut → Except String (List Proj × Level)
+def resolveChain (w : World) : Level → List Shortcut → Except String (List Proj × Level)
   | lvl, [] => .ok ([], lvl)
   | lvl, s :: ss =>
-    match resolve lvl s with
+    match resolve w lvl s with
     | none => .error "AttributeError"
-    | some (pr, lvl') =>
-      match resolveChain lvl' ss with
+    | some (prs, lvl') =>
+      match resolveChain w lvl' ss with
       | .error e => .error e
-      | .ok (ps, l) => .ok (pr :: ps, l)
+      | .ok (ps, l) => .ok (prs ++ ps, l)
 
 /-- `Projector.transform` -/
-def transform {α} (p : Pop) (zero : α) : Proj → List α → Except String (List α)
-  | .toPerson, x => project p x zero none
-  | .firstPerson, x => valueFromFirst p x zero
-  | .uniqueRole r, x => valueFromPerson p x r zero
+def transform {α} (w : World) (zero : α) : Proj → List α → Except String (List α)
+  | .toPerson e, x => project (w.pop e) x zero none
+  | .firstPerson e, x => valueFromFirst (w.pop e) x zero
+  | .uniqueRole e r, x => valueFromPerson (w.pop e) x r zero
 
 /-- `Projector.transform_and_bubble_up`: the list is the projector followed by its parents -/
-def bubbleUp {α} (p : Pop) (zero : α) : List Proj → List α → Except String (List α)
+def bubbleUp {α} (w : World) (zero : α) : List Proj → List α → Except String (List α)
   | [], x => .ok x
   | pr :: parents, x =>
-    match transform p zero pr x with
+    match transform w zero pr x with
     | .error e => .error e
-    | .ok y => bubbleUp p zero parents y
+    | .ok y => bubbleUp w zero parents y
 
 /-- `population.s1.….sk.method(args)`: resolve the chain, call the method on the innermost
-reference entity, transform through the projectors from the innermost to the outermost. -/
-def chainCall {α} (p : Pop) (zero : α) (start : Level) (ss : List Shortcut)
+reference entity and, when the method is `projectable`, transform the result through the
+projectors from the innermost to the outermost (`Projector.__getattr__` returns the attributes
+that are not projectable — `project`, `count`, … — as they are). -/
+def chainCall {α} (w : World) (zero : α) (start : Level) (ss : List Shortcut) (projectable : Bool)
     (method : Level → Except String (List α)) : Except String (List α) :=
-  match resolveChain start ss with
+  match resolveChain w start ss with
   | .error e => .error e
   | .ok (ps, lvl) =>
     match method lvl with
     | .error e => .error e
-    | .ok r => bubbleUp p zero ps.reverse r
+    | .ok r => if projectable then bubbleUp w zero ps.reverse r else .ok r
 
 /-! ## Specification vocabulary (what "the members of group g" means) -/
 
@@ -360,6 +423,16 @@ def roleOk (role : Option Role) (m : Member) : Bool :=
 storage order: a filter on the membership list -/
 def valuesOf {α} (p : Pop) (role : Option Role) (g : Nat) (a : List α) : List α :=
   ((p.ms.zip a).filter (fun ma => ma.1.group == g && roleOk role ma.1)).map (·.2)
+
+/-- the persons of group `g`, by index, in storage order -/
+def membersOf (p : Pop) (g : Nat) : List Nat :=
+  (List.range p.ms.length).filter fun i => (p.ms.getD i default).group == g
+
+/-- assigned `members_position`: one position per person, and within every group the positions
+are `0 .. size-1` in some order -/
+def ValidPositions (p : Pop) (pos : List Nat) : Prop :=
+  pos.length = p.ms.length ∧
+  ∀ g, ((membersOf p g).map fun i => pos.getD i 0).Perm (List.range (membersOf p g).length)
 
 /-- the persons of group `g` that satisfy the condition, by index, in storage order -/
 def rankedIn (p : Pop) (cond : List Bool) (g : Nat) : List Nat :=
